@@ -282,6 +282,9 @@ var classes = []string{"valid", "wronglen", "wrongserial", "serial0", "wrongfn",
 // classes of C03: the nine of the statement plus replies whose malformed field is an impossible value rather than an undecodable one
 var classes03 = append(append([]string{}, classes...), "valid-ood")
 
+// NumClasses03 is the number of datagram classes the C03 profile draws from (evidence: size of the class-sequence space).
+var NumClasses03 = len(classes03)
+
 // datagram builds one datagram of a class for the call (op, a) addressed to serial S.
 func (b *builder) datagram(class string, op model.Op, a *model.Args, S uint32) []byte {
 	r := b.r
